@@ -328,6 +328,7 @@ class Gen:
             opts.append("bad-domain")
         if self.newtypes:
             opts.append("bad-first-type")
+        opts.append("bad-syntax")
         # (a second definition with the signature of an existing function is NOT in the
         # catalogue: the loop answers it with an interactive "Redefine? (y/n)" question that
         # eats the following input - a dialogue, not a rejection, and outside the property)
@@ -350,6 +351,11 @@ class Gen:
             return self.add(Form("bad:" + k, '%s << "@@x:" << %s(4) << newline;' % (self.d.out, self.fresh("nosuch")), good=False))
         if k == "bad-return":
             return self.add(Form("bad:" + k, "%s(a: %s): String == a;" % (self.fresh("g"), SI), good=False))
+        if k == "bad-syntax":
+            # lexically complete (brackets balanced or closing only, statement terminated), but no parse
+            text = r.choice(['%s << ) 3;' % self.d.out, 'q%d := 3 +;' % r.range(1, 99), 'if then else;', 'x +-> ;',
+                             '%s << "@@x:" << << newline;' % self.d.out])
+            return self.add(Form("bad:" + k, text, good=False))
         if k == "bad-overload":
             # an ill-typed definition that would OVERLOAD an existing function (other
             # signature): the existing meaning must keep working afterwards
